@@ -7,7 +7,9 @@
  *                                     (-2 end of input, -1 read error), again and again
  *   p root <forest>                   replace the children of the target node
  *   p config [fail=<k>]               mpt_parse_config with a recording path handler (the handler
- *                                     refuses the k-th event, counted from 0)
+ *                                     refuses the k-th event, counted from 0); the handler reads every
+ *                                     value it is given and checks that the range lies behind the path
+ *                                     inside the used data of the path buffer (vals=ok)
  *   p node                            mpt_parse_node(target, ctx, fmt)
  *   p render <style> <decor> <forest> <hex>   (C09) the text of <forest> as written by the reference
  *                                     writer; the real code only takes <hex> as input
@@ -28,6 +30,7 @@
 #include "convert.h"
 #include "node.h"
 #include "config.h"
+#include "array.h"
 #include "parse.h"
 
 extern size_t __sanitizer_get_current_allocated_bytes(void);   /* ASan runtime */
@@ -179,6 +182,7 @@ struct event { int kind; uint8_t *path; size_t plen; uint8_t *val; size_t vlen; 
 static struct event *evs;
 static size_t nev, capev;
 static long fail_at = -1;
+static const char *vals_bad;   /* a value range handed to the handler left the used part of the path buffer */
 
 /* independent split of the path bytes: elements separated by path->sep, one slot byte at the end */
 static int record(void *ctx, const MPT_STRUCT(path) *p, const MPT_STRUCT(value) *val, int last, int curr)
@@ -195,10 +199,24 @@ static int record(void *ctx, const MPT_STRUCT(path) *p, const MPT_STRUCT(value) 
 	e->hasval = 0; e->val = 0; e->vlen = 0;
 	if (val) {
 		const struct iovec *vec = val->_addr;
+		size_t take = vec->iov_len;
+		/* the value must be bytes the parser has stored: behind the path, inside the used buffer data */
+		if (take) {
+			if (!p->base || !(p->flags & MPT_PATHFLAG(HasArray))) { vals_bad = "nobuffer"; take = 0; }
+			else {
+				const MPT_STRUCT(buffer) *buf = ((const MPT_STRUCT(buffer) *) p->base) - 1;
+				size_t start = p->off + p->len;
+				if ((const char *) vec->iov_base != p->base + start) { vals_bad = "start"; take = 0; }
+				else if (start > buf->_used || take > buf->_used - start) {
+					vals_bad = "beyond-used";
+					take = start > buf->_used ? 0 : buf->_used - start;
+				}
+			}
+		}
 		e->hasval = 1;
-		e->vlen = vec->iov_len;
-		e->val = malloc(vec->iov_len + 1);
-		if (vec->iov_len) memcpy(e->val, vec->iov_base, vec->iov_len);
+		e->vlen = take;
+		e->val = malloc(take + 1);
+		if (take) memcpy(e->val, vec->iov_base, take);
 	}
 	++nev;
 	return 0;
@@ -392,11 +410,12 @@ int main(void)
 			}
 			setup_ctx(&ctx);
 			type = mpt_parse_format(&pf, fmt_str);
-			if (!(next = mpt_parse_next_fcn(type))) { printf("R err nest=- | C . | I code=-3 line=1 getc=0 used=0 curr=0\n"); continue; }
+			if (!(next = mpt_parse_next_fcn(type))) { printf("R err nest=- vals=ok | C . | I code=-3 line=1 getc=0 used=0 curr=0\n"); continue; }
 			clear_events();
+			vals_bad = 0;
 			ret = mpt_parse_config(next, &pf, &ctx, record, 0);
 			ob_reset(); put_events();
-			printf("R %s nest=%s | C %s", ret < 0 ? "err" : "ok", ret < 0 ? "-" : nest_verdict(), ob);
+			printf("R %s nest=%s vals=%s | C %s", ret < 0 ? "err" : "ok", ret < 0 ? "-" : nest_verdict(), vals_bad ? vals_bad : "ok", ob);
 			put_internals(ret, &ctx);
 			clear_events();
 		}
